@@ -87,6 +87,10 @@ def gen_case(rng, tier, idx):
         if rng.random() < 0.85:
             s["highFrequencySubmitRate"] = rng.choice([0.0, 0.3, 0.7, 1.0])
         cfg["simulation"]["sessions"].append(s)
+    if rng.random() < 0.1:
+        cfg["simulation"]["sessions"].insert(rng.randrange(ns + 1), {
+            "sessionName": "empty", "iterationSteps": 0, "withOrderPlacement": True, "withOrderExecution": False,
+            "withPrint": False})
     add_builtin_events(rng, cfg, p_each=0.45)
     if idx % 20 == 7:
         # a halt that starts in the very first step: zero threshold, crossing orders at time 0
